@@ -1009,6 +1009,50 @@ class SymC:
     def abs2(self):
         return _add0(_mul0(self.re, self.re), _mul0(self.im, self.im))
 
+    def clip(self, min=None, max=None):
+        # numpy clips complex values with the lexicographic order
+        r = self
+        if min is not None:
+            r = ite(r < min, as_symc(min), r)
+        if max is not None:
+            r = ite(r > max, as_symc(max), r)
+        return r
+
+    # complex elementary functions: a pair of uninterpreted real functions of (re, im)
+    def _cuf(self, name):
+        re, im = lift(self.re), lift(self.im)
+        return SymC(Sym(uninterpreted('c' + name + '_re', 2)(re, im)), Sym(uninterpreted('c' + name + '_im', 2)(re, im)))
+
+    def exp(self):
+        return self._cuf('exp')
+
+    def log(self):
+        return self._cuf('log')
+
+    def sin(self):
+        return self._cuf('sin')
+
+    def cos(self):
+        return self._cuf('cos')
+
+    def sinh(self):
+        return self._cuf('sinh')
+
+    def cosh(self):
+        return self._cuf('cosh')
+
+    def expm1(self):
+        return self._cuf('expm1')
+
+    def log1p(self):
+        return self._cuf('log1p')
+
+    def sqrt(self):
+        return self._cuf('sqrt')
+
+    def arctan(self):
+        return self._cuf('arctan')
+
     def __eq__(self, o):
         o = self._o(o)
         if o is None:
